@@ -41,7 +41,9 @@ STRUCTURAL_KEYS = {"paramset_type", "n_parameters", "is_scalar"}
 
 # R4 and R5 know ONE spelling of the ordering clauses (sorted(set(...)) assignments, loops over config.*, functools.reduce);
 # R8 (channel summary), R9 (rebuild), R13 (Workspace.data) and R14 (builder pipeline) decide the same clauses from what the code computes.
-DEFER = [(["C12.R4"], ["C12.R8", "C12.R14"]), (["C12.R5"], ["C12.R9", "C12.R13"])]
+# R6 reads the keys Workspace.build writes off ONE dict display inside build; R9 rebuilds every modifier type's parameter set through
+# build and the requirement merge and compares what comes back, wherever the dict is written.
+DEFER = [(["C12.R4"], ["C12.R8", "C12.R14"]), (["C12.R5"], ["C12.R9", "C12.R13"]), (["C12.R6"], ["C12.R9"])]
 
 
 def _data_history(ctx, rid, repo):
@@ -265,7 +267,7 @@ def run(ctx):
             ctx.holds(r4, f"{MIX}::_ChannelSummaryMixin.__init__: {full}", "append-only, then sorted(set(...)) before any other read")
     # channel_nbins rebuilt in sorted order / slices loop iterates the sorted list
     sl_loops = [n for n in ast.walk(mx.node) if isinstance(n, ast.For) and "_channel_slices" in A.unparse(n)]
-    if sl_loops and A.unparse(sl_loops[0].iter) == "self._channels" and sl_loops[0].lineno > max(n.lineno for n in ast.walk(mx.node) if isinstance(n, ast.Assign) and any(A.dotted(t) == "self._channels" for t in n.targets)):
+    if sl_loops and A.unparse(sl_loops[0].iter) == "self._channels" and sl_loops[0].lineno > max([n.lineno for n in ast.walk(mx.node) if isinstance(n, ast.Assign) and any(A.dotted(t) == "self._channels" for t in n.targets)] or [10 ** 9]):
         ctx.holds(r4, f"{MIX}::_ChannelSummaryMixin.__init__", "channel slices built over the sorted channel list")
     else:
         ctx.violated(r4, mx, "channel slice loop", "channel slices are not built over the sorted channel list the configuration reports", node=mx.node)
